@@ -127,11 +127,11 @@ def _apply_common(piece, blk):
         # replace the whole argument list of every call `<anchor>` (anchor ends with `(`) by `repl`:
         # the dropped argument (a closure / async block) is verified separately as a slice
         hits, n = piece.find(anchor, unique=False, what='elide_arg')
-        for h in hits:
+        for nth, h in enumerate(hits):
             opener = h + n - 1
             closer = rtok.match_close(piece.src.s, opener)
             if closer > opener + 1:
-                piece.replace_tokens(opener + 1, closer - 1, repl, 'elide_arg:' + anchor)
+                piece.replace_tokens(opener + 1, closer - 1, repl.replace('$n', str(nth)), 'elide_arg:' + anchor)
     for anchor, spec in blk.get('closure_specs', []):
         # anchor = `<callee>(`; if the first argument of that call is a closure `|p, ..| body` (or
         # `move |..|`), its body is wrapped in braces and given the contract `spec`, in which $1 is
@@ -258,7 +258,14 @@ def _gen_slice(repo, blk, gen):
     src = extract.load(repo, a['file'])
     i, j = extract.find_item(src, 'fn', a['fn'], impl=a.get('impl'))
     outer = Piece(src, i, j, a['name'])
-    hits, n = outer.find(blk['from'], what='from')
+    if blk.get('from_nth') is not None:
+        hits, n = outer.find(blk['from'], unique=False, what='from')
+        nth = int(blk['from_nth'])
+        if nth >= len(hits):
+            raise LostAnchor(f'{a["file"]}:{a["name"]}: from `{blk["from"]}` occurrence #{nth} not found ({len(hits)})')
+        hits = [hits[nth]]
+    else:
+        hits, n = outer.find(blk['from'], what='from')
     s0 = hits[0]
     if blk.get('through_close'):
         opener = s0 + n - 1
@@ -419,7 +426,7 @@ def generate(repo, template_text, variables=None):
             elif d == 'after_all':
                 frm, to = rest.split('==>')
                 blk.setdefault('after_all', []).append((frm.strip(), to.strip()))
-            elif d in ('strip', 'keep_attrs', 'from', 'through', 'through_stmt'):
+            elif d in ('strip', 'keep_attrs', 'from', 'through', 'through_stmt', 'from_nth'):
                 blk[d] = rest
             elif d in ('through_close', 'inner', 'make_pub', 'through_block', 'until_enclosing_close'):
                 blk[d] = True
